@@ -85,6 +85,40 @@ def check_tables(run, tables, ex, jnp, rng, tier):
             check_generic_family(run, D, N, table, ex, jnp, rng)
 
 
+def check_growth(run, tables, ex, jnp, rng):
+    """Growing modes (anti-diffusion, or a dissipative stepper run with negative dt): the step is still exp(dt*lambda), far beyond the
+    float32 range in a float64 session (exponents up to ~650)."""
+    for (cls, mix, D, N), table in sorted(tables.items()):
+        if cls not in ("Diffusion", "HyperDiffusion") or mix or N > 12 or D == 3:
+            continue
+        for target in (40.0, 95.0, 300.0, 650.0):
+            for mode in ("negative coefficient", "negative dt"):
+                L = float(rng.choice([1.0, 2 * np.pi, 3.0]))
+                omega = 2 * np.pi / L
+                a = 0.3
+                if cls == "Diffusion":
+                    params = {("diffusivity", i, j): (a if i == j else 0.0) for i in range(1, D + 1) for j in range(1, D + 1)}
+                    kw = dict(diffusivity=a)
+                else:
+                    params = {("hyper_diffusivity", 0, 0): a}
+                    kw = dict(hyper_diffusivity=a)
+                lam = linear.symbol_array(D, N, table, params, omega)          # dissipative: Re lambda <= 0
+                dt = target / float(np.max(-lam.real))
+                if mode == "negative coefficient":
+                    st = registry.make(cls, D, N, L=L, dt=dt, **{k: -v for k, v in kw.items()})
+                else:
+                    st = registry.make(cls, D, N, L=L, dt=-dt, **kw)
+                z = -lam * dt
+                want = np.exp(z)
+                got = np.asarray(st.step_fourier(jnp.ones((1,) + wshape(D, N), dtype=complex)))[0]
+                run.case(("growth", cls, D, N, target, mode))
+                bad = ~(np.abs(got - want) <= 1e-11 * (1 + np.abs(z)) * np.abs(want))
+                if bad.any():
+                    s_ = tuple(int(i) for i in np.argwhere(bad)[0])
+                    run.violation({"kind": "multiplier", "cls": cls, "D": D, "N": N, "what": f"growing mode ({mode})"},
+                                  {"index": list(s_), "exponent": float(z[s_].real), "got": complex(got[s_]), "want": complex(want[s_])})
+
+
 def check_generic_family(run, D, N, table, ex, jnp, rng):
     for J in (1, 2, 3, 4):
         alpha = rng.uniform(-1, 1, J + 1) * np.array([0.3 / (2 * np.pi * max(1, N // 2)) ** j for j in range(J + 1)])
@@ -233,6 +267,7 @@ def run(tier: str, seed: int) -> int:
     tables, behs = linear.load(res)
     tlc.cleanup(res)
     check_tables(run_, tables, ex, jnp, rng, tier)
+    check_growth(run_, tables, ex, jnp, rng)
     for (cls, mix, D, N) in sorted(tables):
         if cls == "GeneralLinear" and not mix:
             pass
